@@ -1,9 +1,175 @@
-(* C05 - type conversions and operators follow ES5 sections 9 and 11. *)
-From Coq Require Import ZArith List.
-From Otto Require Import Common.Double C05.Fp C05.Spec C05.Model C05.Eval.
+(* C05 - type conversions and operators follow ES5 sections 9 and 11.
+   Only statements here; proofs are in C05/Proofs.v.  Spec = the ES5 clauses
+   as executable functions (C05/Spec.v, the [spec_d] dialect of C05/Eval.v),
+   Model = otto's code (C05/Model.v, the [model_d] dialect).  The
+   correspondence run judges the interpreter built from /repo against both on
+   every generated expression. *)
+From Coq Require Import ZArith Bool List.
+From Otto Require Import Common.Double C05.Fp C05.Spec C05.Model C05.Eval C05.Proofs C05.Corr.
 Import ListNotations.
 Open Scope Z_scope.
 
-Theorem C05_toint32_ge_2p63_refuted : exists d, m_to_int32 d <> to_int32 d.
+(* 9.5-9.7: for every double whose truncation fits int64 (and for NaN and the
+   infinities) otto's int64 detour computes ToInt32 / ToUint32 / ToUint16 *)
+Theorem C05_toInt32 : forall d, in_int64 d -> m_to_int32 d = to_int32 d.
+Proof. exact m_to_int32_correct. Qed.
+Print Assumptions C05_toInt32.
+
+Theorem C05_toUint32 : forall d, in_int64 d -> m_to_uint32 d = to_uint32 d.
+Proof. exact m_to_uint32_correct. Qed.
+Print Assumptions C05_toUint32.
+
+Theorem C05_toUint16 : forall d, in_int64 d -> m_to_uint16 d = to_uint16 d.
+Proof. exact m_to_uint16_correct. Qed.
+Print Assumptions C05_toUint16.
+
+(* the Spec functions are the residues the clauses ask for, on every bit pattern *)
+Theorem C05_toInt_residues : forall d,
+  (- 2 ^ 31 <= to_int32 d < 2 ^ 31 /\ (to_int32 d - pos_int d) mod 2 ^ 32 = 0) /\
+  (0 <= to_uint32 d < 2 ^ 32 /\ (to_uint32 d - pos_int d) mod 2 ^ 32 = 0) /\
+  (0 <= to_uint16 d < 2 ^ 16 /\ (to_uint16 d - pos_int d) mod 2 ^ 16 = 0).
+Proof. intro d. split; [apply to_int32_char | split; [apply to_uint32_char | apply to_uint16_char]]. Qed.
+Print Assumptions C05_toInt_residues.
+
+(* ... and beyond the int64 range the three conversions of otto are constantly 0:
+   the deviation class of finding C05-toint32 is exactly |trunc x| >= 2^63 with a non-zero residue *)
+Theorem C05_toInt_beyond_int64 : forall d n, trunc_int d = Some n -> (n < - 2 ^ 63 \/ 2 ^ 63 <= n) ->
+  m_to_int32 d = 0 /\ m_to_uint32 d = 0 /\ m_to_uint16 d = 0.
+Proof. exact m_to_int_beyond. Qed.
+Print Assumptions C05_toInt_beyond_int64.
+
+Theorem C05_toInt32_ge_2p63_refuted : exists d, m_to_int32 d <> to_int32 d.
 Proof. exists 0x43E0000000000001. vm_compute. discriminate. Qed.
-Print Assumptions C05_toint32_ge_2p63_refuted.
+Print Assumptions C05_toInt32_ge_2p63_refuted.
+
+(* 9.2 *)
+Theorem C05_toBoolean : forall p,
+  to_boolean p = false <->
+  (p = PUndef \/ p = PNull \/ p = PBool false \/ p = PStr [] \/
+   exists d, p = PNum d /\ (is_nan d = true \/ is_zero d = true)).
+Proof. exact to_boolean_false_iff. Qed.
+Print Assumptions C05_toBoolean.
+
+(* 11.4.3 *)
+Theorem C05_typeof : forall v,
+  typeof_v v = match v with
+               | VP PUndef => s_undefined
+               | VP PNull => s_object
+               | VP (PBool _) => s_boolean
+               | VP (PNum _) => s_number
+               | VP (PStr _) => s_string
+               | VO o => if o_cls o =? 2 then s_function else s_object
+               end.
+Proof. exact typeof_table. Qed.
+Print Assumptions C05_typeof.
+
+(* 11.9.3: for every dialect of the primitive conversions, every pair of values
+   (primitives and objects with arbitrary scripted methods) and every state,
+   otto's kind-ordered switch (calculateComparison) yields the result, the
+   final state, the ToPrimitive call sequence and the completion of the
+   abstract equality algorithm *)
+Theorem C05_abstract_equality : forall d x y st, model_eq d 5 x y st = spec_eq d 5 x y st.
+Proof.
+  intros d x y st. apply model_eq_is_spec_eq.
+  destruct x as [[| | | |]|]; destruct y as [[| | | |]|]; cbn; repeat constructor.
+Qed.
+Print Assumptions C05_abstract_equality.
+
+(* 11.9.6 *)
+Theorem C05_strict_equality : forall x y st, model_strict_eq x y st = ret (spec_strict_eq x y) st.
+Proof. exact model_strict_eq_is_spec. Qed.
+Print Assumptions C05_strict_equality.
+
+(* 11.8.1-11.8.5: calculateLessThan with its operand swap, leftFirst flag and
+   result table is the abstract relational comparison for < > <= >=, including
+   the order of the two ToPrimitive calls and the undefined (NaN) outcome;
+   the string case is relative to the dialect's string order *)
+Theorem C05_relational : forall d op x y st, model_relop d op x y st = spec_relop d op x y st.
+Proof. exact model_relop_is_spec. Qed.
+Print Assumptions C05_relational.
+
+(* 11.5.2: evaluateDivide's cascade of special cases is IEEE-754 division on all pairs of doubles *)
+Theorem C05_divide_is_ieee : forall l r, 0 <= l < 2 ^ 64 -> 0 <= r < 2 ^ 64 -> m_divide l r = fdiv l r.
+Proof. exact m_divide_is_fdiv. Qed.
+Print Assumptions C05_divide_is_ieee.
+
+(* 11.6.1: otto converts the left operand of + before it reads the right variable.
+   The two orders give the same result, state and call log for every continuation
+   whenever the left operand's valueOf/toString assign no variable and the
+   conversion completes normally; C05_plus_order_refuted shows the hypothesis is needed *)
+Theorem C05_plus_operand_order : forall A (k : prim -> value -> M A) v n st,
+  value_pure v ->
+  (exists p st', to_primitive 0 v st = (Ok p, st')) ->
+  nth_error (vars st) n <> None ->
+  (lp <- to_primitive 0 v ;; rv <- getvar n ;; k lp rv) st =
+  (rv <- getvar n ;; lp <- to_primitive 0 v ;; k lp rv) st.
+Proof. exact plus_getvalue_commutes. Qed.
+Print Assumptions C05_plus_operand_order.
+
+(* otto's deviations, as refutations of "model = spec" with concrete witnesses *)
+Definition units_inf : list Z := [105; 110; 102].                      (* "inf" *)
+Definition units_1_0 : list Z := [49; 95; 48].                         (* "1_0" *)
+Definition units_hexfloat : list Z := [48; 120; 49; 46; 56; 112; 49].  (* "0x1.8p1" *)
+Theorem C05_tonumber_overaccepts_refuted :
+  forall s, In s [units_inf; units_1_0; units_hexfloat] ->
+  string_to_number s = NLNaN /\ parse_number s <> nan_bits.
+Proof.
+  intros s [<-|[<-|[<-|[]]]]; vm_compute; split; (reflexivity || discriminate).
+Qed.
+Print Assumptions C05_tonumber_overaccepts_refuted.
+
+Definition units_hex_2p63 : list Z := [48; 120; 56; 48; 48; 48; 48; 48; 48; 48; 48; 48; 48; 48; 48; 48; 48; 48].
+Theorem C05_tonumber_hex_big_refuted :
+  string_to_number units_hex_2p63 = NLVal 0x43E0000000000000 /\ parse_number units_hex_2p63 = nan_bits.
+Proof. vm_compute. split; reflexivity. Qed.
+Print Assumptions C05_tonumber_hex_big_refuted.
+
+(* "￿" < "𐀀" *)
+Theorem C05_strcmp_refuted : exists a b, m_str_lt a b <> units_lt a b.
+Proof. exists [0xFFFF], [0xD800; 0xDC00]. vm_compute. discriminate. Qed.
+Print Assumptions C05_strcmp_refuted.
+
+(* var b = 2, a = {valueOf: function(){ b = 10; return 1 }}; a + b *)
+Definition order_obj : value :=
+  VO (Build_obj 1 0 (MDo (Some (1%nat, PNum 0x4024000000000000)) (MPrim (PNum 0x3FF0000000000000))) MNone [] [] (-1)).
+Theorem C05_plus_order_refuted : exists vs e, run model_d vs e <> run spec_d vs e.
+Proof.
+  exists [order_obj; VP (PNum 0x4000000000000000)], (EBin 0 (EVar 0) (EVar 1)).
+  vm_compute. discriminate.
+Qed.
+Print Assumptions C05_plus_order_refuted.
+
+(* var x = 1; x += (x = 5, 1): the left operand is read first (ES5 11.13.2; otto since commit 3657e0a),
+   so the two dialects agree on the former witness and the result is 2 *)
+Example C05_compound_order_witness :
+  let vs := [VP (PNum 0x3FF0000000000000)] in
+  let e := ECmp 0 0 (EBin 23 (EAsg 0 (ELit (VP (PNum 0x4014000000000000)))) (ELit (VP (PNum 0x3FF0000000000000)))) in
+  run model_d vs e = run spec_d vs e /\
+  run spec_d vs e = Some (0, OP (PNum 0x4000000000000000), [OP (PNum 0x4000000000000000)], []).
+Proof. vm_compute. split; reflexivity. Qed.
+
+(* String(9007199254740993) *)
+Theorem C05_int_repr_tostring_refuted :
+  exists n, Some (int_to_string n) <> number_to_string (of_int n).
+Proof. exists 9007199254740993. vm_compute. discriminate. Qed.
+Print Assumptions C05_int_repr_tostring_refuted.
+
+(* non-vacuity: the guards are met, and the Spec functions compute the textbook values *)
+Example C05_in_int64_met : in_int64 0x41DFFFFFFFC00000 /\ to_int32 0x41E0000000000000 = - 2 ^ 31.
+Proof. vm_compute. split; [split; [discriminate | reflexivity] | reflexivity]. Qed.
+Example C05_beyond_met : trunc_int 0x43E0000000000001 = Some (2 ^ 63 + 2048) /\ to_int32 0x43E0000000000001 = 2048.
+Proof. vm_compute. split; reflexivity. Qed.
+Example C05_divide_range_met : 0 <= 0x3FF0000000000000 < 2 ^ 64 /\ fdiv 0x3FF0000000000000 0x4008000000000000 = 0x3FD5555555555555.
+Proof. vm_compute. split; [split; [discriminate | reflexivity] | reflexivity]. Qed.
+Definition pure_obj : value :=
+  VO (Build_obj 1 0 (MDo None MObj) (MDo None (MPrim (PStr [120]))) [] [] (-1)).
+Example C05_plus_operand_order_met :
+  value_pure pure_obj /\
+  to_primitive 0 pure_obj {| vars := [VP PNull]; log := [] |} = (Ok (PStr [120]), {| vars := [VP PNull]; log := [3; 2] |}).
+Proof. vm_compute. repeat split; reflexivity. Qed.
+Example C05_spec_samples :
+  string_to_number [32; 48; 120; 49; 70; 10] = NLVal 0x403F000000000000 /\          (* " 0x1F\n" -> 31 *)
+  number_to_string 0x3FB999999999999A = Some [48; 46; 49] /\                        (* 0.1 *)
+  number_to_string 0x444B1AE4D6E2EF50 = Some [49; 101; 43; 50; 49] /\               (* 1e+21 *)
+  fadd 0x3FB999999999999A 0x3FC999999999999A = 0x3FD3333333333334.                 (* 0.1 + 0.2 *)
+Proof. vm_compute. repeat split; reflexivity. Qed.
